@@ -60,7 +60,9 @@ def run_job(job):
         if patch is not None:
             undo = getattr(mod, patch)()
         direct = opts.pop("direct", False)
-        sys.setprofile(_profiler)
+        trace = opts.pop("trace", True)
+        if trace:
+            sys.setprofile(_profiler)
         try:
             if direct:
                 opts.pop("seed", None)
@@ -79,12 +81,15 @@ def run_job(job):
             "merged_calls": st.merged_calls, "merged_paths": st.merged_paths,
             "cex": res.counterexamples, "inconclusive": res.inconclusive[:20],
             "n_inconclusive": len(res.inconclusive),
-            "samples": res.samples[:6], "functions": sorted(_TRACE_FUNCS),
+            "samples": res.samples[:6], "functions": sorted(_TRACE_FUNCS), "traced": bool(trace),
             "extra": getattr(res, "extra", None),
         })
     except BaseException as ex:  # noqa
         out["error"] = "%s: %s\n%s" % (type(ex).__name__, ex, traceback.format_exc()[-3000:])
     out["wall"] = time.time() - t0
+    if os.environ.get("VERIF_VERBOSE"):
+        print("  job %-40s %7.1fs %s" % (job.name, out["wall"], "ERROR" if "error" in out else
+              "paths=%s %s" % (out.get("paths"), out.get("verdicts"))), file=sys.stderr, flush=True)
     return out
 
 
@@ -98,6 +103,14 @@ def _jsonable(x):
 
 def run_jobs(jobs, procs=None):
     procs = procs or int(os.environ.get("VERIF_PROCS", "0")) or min(16, os.cpu_count() or 4)
+    if not jobs:
+        return []
+    # function tracing (sys.setprofile) slows symx ~3x: trace only the two lightest jobs per harness
+    seen = {}
+    for j in sorted(jobs, key=lambda j: j.weight):
+        k = seen.get(j.func, 0)
+        j.opts["trace"] = k < 2
+        seen[j.func] = k + 1
     jobs = sorted(jobs, key=lambda j: -j.weight)
     if procs == 1 or len(jobs) == 1:
         return [run_job(j) for j in jobs]
@@ -250,6 +263,9 @@ def finish(pid, tier, seed, mod, results, t0, extra_cov=None, assumptions=None):
         "merged_calls": tot["merged_calls"], "merged_paths": tot["merged_paths"],
         "solver_time_s": round(tot["query_time"] + tot["feas_time"], 3),
         "functions_encoded": ["%s:%s" % f for f in sorted(functions)],
+        "functions_encoded_note": "repository functions entered while symbolic inputs were live, recorded with sys.setprofile on "
+                                  "the two lightest jobs of every harness (%d of %d jobs traced; tracing slows symx ~3x)"
+                                  % (sum(1 for r in results if r.get("traced")), len(results)),
         "source_sha256_16": file_hashes(functions),
         "bounds": getattr(mod, "BOUNDS", {}).get(tier, getattr(mod, "BOUNDS", {})),
         "outside_bounds": getattr(mod, "OUTSIDE", []),
